@@ -266,8 +266,22 @@ def e1b(fb, rep):
         good_build = any(("call", lk[0].res) in flow.sources(mcr, rv[2][1]) or ("field", "gluon_vm::thread::Context", "stack") in flow.sources(mcr, rv[2][1])
                          for i, rv in built)
         retained = any(any(("call", lk[0].res) in flow.sources(mcr, a) for a in c.args) for c in push if in_loop(c))
-        if good_build and retained:
-            rep.ok(R, "mark_child_roots: every descendant is locked, traced via Roots{stack: &context.stack} and its guard retained until after the sweep")
+        # the walk is transitive: inside the loop the locked thread's own child_threads feed the work list
+        # (a descendant that is marked through child_threads.trace but not locked is never swept: its mark
+        # bits stay set and its next own collection frees what a cell has been given since)
+        feeds = False
+        for c in mcr.calls():
+            if in_loop(c) and (c.res.endswith("::extend") or c.res.endswith("::push") or c.res.endswith("::append")) and len(c.args) > 1:
+                dst = mcr.strip_refs(mcr.local_ty(c.args[0][1][0])) if c.args[0][0] in ("c", "m") else {}
+                if "GcPtr<gluon_vm::thread::Thread>" in dst.get("s", "") and "Guard" not in dst.get("s", ""):
+                    srcs = flow.sources(mcr, c.args[1])
+                    reads_in_loop = [x for x in ch if in_loop(x)]
+                    if ("field", T, "child_threads") in srcs and reads_in_loop:
+                        feeds = True
+        if not feeds:
+            rep.violation(R, "child-walk-not-transitive", "mark_child_roots does not add the children of each locked thread to its work list: deeper descendants are marked but never locked or swept", mcr.where())
+        elif good_build and retained:
+            rep.ok(R, "mark_child_roots: every descendant (transitively) is locked, traced via Roots{stack: &context.stack} and its guard retained until after the sweep")
         else:
             rep.violation(R, "child-roots-shape", "mark_child_roots does not trace each locked child from its own stack / retain the guard (built=%s retained=%s)" % (good_build, retained), mcr.where())
     else:
@@ -367,6 +381,72 @@ def e1c(fb, rep):
         rep.violation(R, "collect-after-alloc", "check_collect does not dominate alloc_owned", b.where())
 
 
+def e1d(fb, rep):
+    R = "E1d"
+    rep.rule(R, "host handles: a RootedValue exists only while its value is registered in Thread.rooted_values")
+    T = "gluon_vm::thread::Thread"
+    RV = "gluon_vm::thread::RootedValue"
+    # who takes the write lock of rooted_values, and what do they do with it
+    writers = {}
+    for b in fb.bodies.values():
+        for c in b.calls():
+            if c.args and c.res.endswith("RwLock::<T>::write") and ("field", T, "rooted_values") in flow.sources(b, c.args[0]):
+                guard_users = set()
+                for d in b.calls():
+                    if d.res.startswith("alloc::vec::Vec::<T, A>::") or d.res.startswith("alloc::vec::Vec::<T>::"):
+                        if d.args and flow.has_call(flow.sources(b, d.args[0]), lambda n: n.endswith("RwLock::<T>::write")):
+                            guard_users.add(d.res.rsplit("::", 1)[1])
+                writers[b.id] = guard_users
+    rep.floor(R, "functions write-locking Thread.rooted_values", len(writers), 3)
+    adders = {k for k, v in writers.items() if "push" in v}
+    removers = {k for k, v in writers.items() if v & {"swap_remove", "remove", "pop", "retain", "clear", "truncate", "drain"}}
+    for k, v in sorted(writers.items()):
+        unknown = v - {"push", "swap_remove"}
+        if unknown:
+            rep.violation(R, "rooted-values-mutator|%s" % k, "%s mutates Thread.rooted_values with %s" % (k, sorted(unknown)), "")
+        else:
+            rep.ok(R, "%s: rooted_values.%s" % (k, "/".join(sorted(v))))
+    # removal removes the handle's own value (position found by object identity with self.value)
+    for k in sorted(removers):
+        b = fb.body(k)
+        rm = [c for c in b.calls() if c.res.endswith("::swap_remove")]
+        good = False
+        for c in rm:
+            srcs = flow.sources(b, c.args[1]) if len(c.args) > 1 else set()
+            if flow.has_call(srcs, lambda n: n.endswith("Iterator::position")):
+                for cl in fb.closures_of(b.id):
+                    if any(x.res.endswith("::obj_eq") for x in cl.calls()) and ("closure", cl.id) in srcs:
+                        good = True
+        if good:
+            rep.ok(R, "%s removes the entry that is object-identical to self.value" % k)
+        else:
+            rep.violation(R, "unroot-wrong-entry|%s" % k, "%s removes an entry of rooted_values that is not located by identity with the handle's own value" % k, b.where())
+    # constructions of RootedValue: after registering (new) or taking over an existing registration (into_owned + forget)
+    n = 0
+    for b in fb.bodies.values():
+        aggs = [i for i in flow.blocks_constructing(b, RV)]
+        if not aggs:
+            continue
+        n += 1
+        if b.id in adders:
+            pushes = [c for c in b.calls() if c.res.endswith("::push") and flow.has_call(flow.sources(b, c.args[0]), lambda x: x.endswith("RwLock::<T>::write"))]
+            if pushes and all(b.dominates(pushes[0].bb, i) for i in aggs):
+                rep.ok(R, "%s registers the value in rooted_values before it builds the handle" % b.id)
+            else:
+                rep.violation(R, "handle-before-root|%s" % b.id, "%s builds a RootedValue that is not dominated by the push into rooted_values" % b.id, b.where())
+        elif any(c.res.endswith("mem::forget") for c in b.calls()):
+            rep.ok(R, "%s transfers an existing registration (old handle forgotten)" % b.id)
+        else:
+            rep.violation(R, "unregistered-handle|%s" % b.id, "%s builds a RootedValue without registering its value as a root" % b.id, b.where())
+    rep.floor(R, "constructors of RootedValue", n, 2)
+    # Drop unroots
+    d = [b for b in fb.bodies.values() if b.get("impl_trait") == "core::ops::drop::Drop" and b.get("name") == "drop" and "RootedValue<T>" in b.id]
+    if d and any(c.res.endswith("::unroot_") for c in d[0].calls()):
+        rep.ok(R, "<RootedValue as Drop>::drop unroots")
+    else:
+        rep.violation(R, "drop-does-not-unroot", "dropping a RootedValue no longer removes its root (leak) or the impl is gone", "")
+
+
 def run(fb, rep, tier, cfg):
     rep.explanation = (
         "Static analysis of the resolved MIR/ADT/impl tables of the workspace. E1a: for each of the impls of gc::Trace, "
@@ -384,5 +464,6 @@ def run(fb, rep, tier, cfg):
     e1a(fb, rep)
     e1b(fb, rep)
     e1c(fb, rep)
+    e1d(fb, rep)
     from . import e4
     e4.cells(fb, rep)
